@@ -493,10 +493,10 @@ impl<K, V, S> LruCache<K, V, S> {
     /// Creates an iterator that drains entries from this cache. Both key and
     /// value of each entry are returned. The cache is cleared afterward.
     ///
-    /// Note it is important for the drain to be dropped in order to ensure
-    /// integrity of the data structure. Preventing it from being dropped, e.g.
-    /// using [mem::forget](mem::forget), can result in unexpected behavior of
-    /// the cache.
+    /// The cache is empty as soon as the drain is created. Entries which have
+    /// not been yielded are dropped together with the drain. Preventing it
+    /// from being dropped, e.g. using [mem::forget](mem::forget), leaks those
+    /// entries, but leaves the cache empty and valid.
     ///
     /// # Example
     ///
